@@ -65,7 +65,7 @@ def h_bayes(sk, numeric, bsupport, nseed, bmode='sym', mustfail=False):
         S.check('observation_matrix:cells-are-observation_dist-probabilities', S.And(
             [S.eq(om[i, j, k], P.spec_O(v, a, n, o)) for i, a in enumerate(al) for j, n in enumerate(sl) for k, o in enumerate(ol)] + [S.truth(om.shape == (len(al), len(sl), len(ol)))]))
         b = make_belief(sl, bsupport, mode=bmode, nseed=nseed)
-        bd = DictDistribution(dict(b))
+        bd = DictDistribution(dict(b) if nseed % 2 == 0 else dict(reversed(list(b.items()))))      # the keys of a belief need not follow the state list
         bvec = sym_array([b[s] for s in sl]) if S.symbolic() else np.array([b[s] for s in sl], dtype=float)
         for ai, a in enumerate(al):
             pred = pomdp.predictive_observation_dist(bd, a)
